@@ -96,7 +96,7 @@ RULE = ('cases = (timeout T, list of external events) run against the real aiuti
         '(thorough) letters over {plain, async iterable, yield, end, Advance T-1 / T+1, FnOk, FnFail, wait(True), wait(False)}, '
         'Shutdown appended to every word of <=3 / <=4 letters over 14 letters, every word over {plain, submit+wait(True/False), '
         'Advance T+1, FnOk, FnFail, wait(True)}, and one foreign submission (plain / + wait_from_anywhere cancel=True / False) split at '
-        'every pair of quiescent points of every program of <=3 / <=4 letters; random layer: programs of 6..22 events, about a fifth '
+        'every pair of quiescent points of every program of <=3 / <=4 letters; bursts of n plain submissions made back to back in ONE loop pass (model: n Submit events), flushed by wait(cancel=True) / delivered by the timer / arriving under a running call, each followed by a wait and a later second wait: n = 2, 65, 257 x 2 timeouts and n = 1100 (shapes A, B; thorough also 1023..1026, 1300 and shape C); random layer: programs of 6..22 events, about a fifth '
         'waits, a fifth ending in Shutdown at a random cut.  non-trivial = (a wait returned and a call succeeded) or (the daemon ended '
         'with at least one submission) (Case_C07.nontrivial, decided inside Coq); distinct = distinct (case, trace) pairs among those')
 EXHAUSTIVE_NOTE = ('all event words up to length 4 (quick) / 5 (thorough) over the 10-letter C07 alphabet at T=8; Shutdown at every '
